@@ -11,3 +11,7 @@ open Rtsp.Sdp.C05
 #print axioms sdp_reparse_idempotent
 #print axioms reparse_idempotent_partial
 #print axioms reparse_clause_fails
+#print axioms marshal_injective
+#print axioms media_roundtrip
+#print axioms format_lookup_roundtrip
+#print axioms mikey_hypothesis
